@@ -9,7 +9,8 @@ full path at registration."
 
 * `unmount`     : the same definition tree with every mount replaced by a group with the mount
                   prefix at the same position; `flattenSpec` registers that tree.
-* `spell`       : the same tree with every group removed and every path spelled out in full.
+* `spell`       : the same tree (sub-apps included) with every group removed and every path
+                  spelled out in full.
 * what a request can see of a route table: per method, in order, one entry per handler with the
   fields the matcher reads (`expandObs`); consecutive handlers of one route and the same handlers
   on consecutive identical routes are the same chain (`run_eq_runE` in Props).
@@ -42,7 +43,7 @@ def spellItem (gp : Option Bytes) : Item → List Item
   | .use p hs => [.use (regPath gp p) hs]
   | .group p hs items =>
     (if hs = [] then [] else [.use (regPath gp p) hs]) ++ spellItems (some (regPath gp p)) items
-  | .mount p scfg sub => [.mount (regPath gp p) scfg sub]
+  | .mount p scfg sub => [.mount (regPath gp p) scfg (spellItems none sub)]
 def spellItems (gp : Option Bytes) : List Item → List Item
   | [] => []
   | i :: is => spellItem gp i ++ spellItems gp is
@@ -53,7 +54,7 @@ def groupFreeItem : Item → Bool
   | .route _ _ _ => true
   | .use _ _ => true
   | .group _ _ _ => false
-  | .mount _ _ _ => true
+  | .mount _ _ sub => groupFree sub
 def groupFree : List Item → Bool
   | [] => true
   | i :: is => groupFreeItem i && groupFree is
